@@ -143,7 +143,9 @@ def gen(rng):
         special = "foreign"
     elif k < 0.10:
         special = "no-referent"
-    return {"case": case, "forwarding": fwd, "req": req, "special": special}
+    # GOT-style transfers: the edge of a call/jump is labelled indirect although it leads to the symbol's block
+    indirect = [i for i, d in enumerate(text) if d["kind"] == "code" and d["insns"][-1][0] in ("jmp", "jcc", "call") and rng.random() < 0.15]
+    return {"case": case, "forwarding": fwd, "req": req, "special": special, "indirect": indirect}
 
 
 def check_case(ctx, g, pending):
@@ -169,6 +171,14 @@ def check_case(ctx, g, pending):
         t = A.symbol_forwarding.get_or_insert(m)
         for a, b in g["forwarding"]:
             t[B.sym[a]] = B.sym[b]
+    for i in g.get("indirect", []):
+        blk = B.blocks[i]
+        for ed in list(blk.outgoing_edges):
+            if ed.label and ed.label.type in (gtirb.Edge.Type.Branch, gtirb.Edge.Type.Call):
+                B.ir.cfg.discard(ed)
+                B.ir.cfg.add(ed._replace(label=gtirb.Edge.Label(type=ed.label.type, conditional=ed.label.conditional, direct=False)))
+    if g.get("indirect"):
+        ctx.count("indirect-flagged-edges")
     pre = irdump.dump_ir(m, idm)
     insns = emodify.decode_insns(pre)
     rules = rules_of(m)
@@ -295,6 +305,35 @@ def flush(ctx, pending):
                               % (e["off"], e["syms"], e["addend"], want_syms, o["addend"]), payload)
             if not any(y in rmap for y in o["syms"]) and e["attrs"] != o["attrs"]:
                 ctx.violation("C18:expression-attrs", "an expression that mentions no retargeted symbol changed its attributes", payload)
+        # attributes of a retargeted expression: converted by the one ABI rule that matches the old expression
+        kind = {y: (r[0] if r else None) for y, r in bm["refs"]}
+        for e in obs["exprs"]:
+            o = bex.get((e["interval"], e["off"]))
+            if o is None or o["addraddr"] or o["syms"][0] not in rmap:
+                continue
+            old_def = kind.get(o["syms"][0]) in ("c", "d")
+            new_def = kind.get(rmap[o["syms"][0]]) in ("c", "d")
+            match = [r for r in reqs[0]["rules"] if o["access"] in r["access"] and sorted(o["attrs"]) == sorted(r["internal" if old_def else "external"])]
+            want = sorted(o["attrs"]) if not match else sorted(match[0]["internal" if new_def else "external"])
+            if len(match) <= 1 and sorted(e["attrs"]) != want:
+                ctx.violation("C18:expression-attributes", "expression at +%d (old symbol %s, new symbol %s): attributes %s, the ABI rule gives %s"
+                              % (e["off"], "defined" if old_def else "external", "defined" if new_def else "external", sorted(e["attrs"]), want), payload)
+        # edges: every branch/call edge of a block whose transfer names a retargeted symbol leads to the new referent
+        node = {y: ((r[0] == "p", r[1]) if r else None) for y, r in bm["refs"]}
+        for o in bm["exprs"]:
+            if o["access"] != 0 or o["addraddr"] or o["cfg_block"] is None or o["syms"][0] not in rmap:
+                continue
+            old_n, new_n = node.get(o["syms"][0]), node.get(rmap[o["syms"][0]])
+            if old_n is None or new_n is None or old_n == new_n:
+                continue
+            outs = [c for c in obs["cfg"] if c[0] == o["cfg_block"] and c[3] in (0, 1)]
+            had = [c for c in bm["cfg"] if c[0] == o["cfg_block"] and c[3] in (0, 1) and (c[1], c[2]) == old_n]
+            if had and any((c[1], c[2]) == old_n for c in outs):
+                ctx.violation("C18:edge-still-leads-to-the-old-referent", "block %d names the retargeted symbol in its transfer but keeps an edge to the old referent %s (edges %s)"
+                              % (o["cfg_block"], old_n, outs), payload)
+            if had and not any((c[1], c[2]) == new_n for c in outs):
+                ctx.violation("C18:edge-to-the-new-referent-missing", "block %d names the retargeted symbol in its transfer but has no edge to the new referent %s (edges %s)"
+                              % (o["cfg_block"], new_n, outs), payload)
         if len(obs["exprs"]) != len(bm["exprs"]):
             ctx.violation("C18:expression-lost", "%d expressions before, %d after" % (len(bm["exprs"]), len(obs["exprs"])), payload)
         mm = a["mod"]
